@@ -795,9 +795,11 @@ class Merger:
         elif isinstance(lhs, CommentedSet):
             self.logger.debug(
                 "Merger::_insert_scalar:  Merging a scalar into a set.")
-            self._merge_sets(
+            merged_set = self._merge_sets(
                 lhs, CommentedSet([rhs]), insert_at,
                 NodeCoords(rhs, None, None))
+            if insert_at.is_root:
+                self.data = merged_set
             merge_performed = True
         elif isinstance(lhs, CommentedMap):
             ex_message = (
@@ -814,6 +816,10 @@ class Merger:
                     " so as to block unintentional STDIN reading."
                 ).format(basename(sys.argv[0]))
             raise MergeException(ex_message, insert_at)
+        elif insert_at.is_root:
+            # A Scalar document; the RHS Scalar overrides it
+            self.data = rhs
+            merge_performed = True
         else:
             lhs_proc.set_value(insert_at, rhs)
             merge_performed = True
